@@ -8,11 +8,14 @@ cd $w || exit 2
 git checkout -q -- entrait_macros src 2>/dev/null
 git apply $w/patch.diff || { echo "$id: patch does not apply"; exit 2; }
 suite=$(cargo test --workspace --no-fail-fast --offline 2>&1 | grep -E "^test result" | awk '{p+=$4; f+=$6} END {print p" passed "f" failed"}')
-cd $w/demo
-CARGO_TARGET_DIR=$w/demo/target cargo test --offline --no-fail-fast >$w/demo_with.log 2>&1; with=$?
+rundemo() {
+  cd $w/demo
+  if [ -x ./run.sh ]; then CARGO_TARGET_DIR=$w/demo/target ./run.sh; return $?; fi
+  CARGO_TARGET_DIR=$w/demo/target cargo test --offline --no-fail-fast
+}
+rundemo >$w/demo_with.log 2>&1; with=$?
 cd $w && git checkout -q -- entrait_macros src
-cd $w/demo
-CARGO_TARGET_DIR=$w/demo/target cargo test --offline --no-fail-fast >$w/demo_without.log 2>&1; without=$?
+rundemo >$w/demo_without.log 2>&1; without=$?
 cd $w && git apply $w/patch.diff
 echo "$id: suite_with_change=[$suite] demo_with_change_exit=$with demo_without_change_exit=$without"
-rm -rf $w/target $w/demo/target
+rm -rf $w/target $w/demo/target $w/demo/expansions
